@@ -31,7 +31,9 @@ PREFIXES = ["MPUpload", "MPULock"]
 def names_of(writer) -> Dict[str, Any]:
     from dask.base import tokenize
 
-    out = {p: writer._build_name(p) for p in PREFIXES}  # pylint: disable=protected-access
+    from .c18_sched import build_name
+
+    out = {p: build_name(writer, p) for p in PREFIXES}
     out["token"] = tokenize(writer)
     out["mpu_token"] = tokenize(writer.mpu)
     v = getattr(writer, "_shared_var", None)
@@ -58,9 +60,9 @@ def first_write_names(writer) -> Dict[str, Any]:
         err = f"{type(e).__name__}: {e}"
     finally:
         distributed.get_client, distributed.Variable, distributed.Lock, _s3.MultiPartUpload.s3_client = saved
-    v = getattr(writer, "_shared_var", None)
+    # the names the real code asked the (recording) scheduler for - read at the external boundary, not off the writer
     return {
-        "var": None if v is None else v.name,
+        "var": (list(cl.var_names) or [None])[-1],
         "lock": (list(cl.locks) or [None])[-1],
         "error": err,
     }
@@ -203,7 +205,10 @@ def make_objects() -> List[Dict[str, Any]]:
 
     objs = []
     for bucket, key, kw in (("bucket", "some/key.tif", {"ContentType": "image/tiff"}),
-                            ("bücket-2", "a/very/long/key/" + "x" * 80 + ".tif", {})):
+                            ("bücket-2", "a/very/long/key/" + "x" * 80 + ".tif", {}),
+                            # minimal differences from the first object: a longer key, another bucket
+                            ("bucket", "some/key.tif.ovr", {"ContentType": "image/tiff"}),
+                            ("bucket2", "some/key.tif", {"ContentType": "image/tiff"})):
         S.CURRENT.update(sched=S.Sched(), s3=S.FakeS3(), cluster=S.Cluster(), local=False, xnames=None)
         saved = (distributed.get_client, distributed.Variable, distributed.Lock)
         distributed.get_client, distributed.Variable, distributed.Lock = S.fake_get_client, S.FakeVariable, S.FakeDLock
